@@ -30,7 +30,5 @@ open Pcore.Desc
 #print axioms C19_countMismatch_real_partial
 #print axioms C19_typeMismatch_real_partial
 #print axioms C19_patternMismatch_real_partial
-#print axioms C19_callable_total
-#print axioms C19_callable_empty_iff
 #print axioms C19_skeleton_agrees
 #print axioms C19_assert_message_partial
